@@ -178,6 +178,11 @@ fn c14(exe: &str) {
         let st = std::process::Command::new(exe).args(&["child", kind, &depth.to_string()]).output().expect("spawn");
         if !st.status.success() { fail(format!("[c14] decoding {} nested {} containers ({} input bytes) on a 512 KiB thread stack killed the process: status {:?} {}", depth, kind, chain(kind, depth).len(), st.status.code(), String::from_utf8_lossy(&st.stderr).lines().last().unwrap_or(""))); }
     } }
+    // stack: a long run of ANY single byte value (a marker that recurses without being counted as nesting)
+    for mk in 0..=255u8 {
+        let st = std::process::Command::new(exe).args(&["childrun", &mk.to_string(), "300000"]).output().expect("spawn");
+        if !st.status.success() { fail(format!("[c14] decoding a run of 300000 bytes 0x{:02X} on a 512 KiB thread stack killed the process: status {:?} {}", mk, st.status.code(), String::from_utf8_lossy(&st.stderr).lines().last().unwrap_or(""))); }
+    }
     // memory: declared counts / lengths must not drive allocation
     let mut inputs: Vec<(String, Vec<u8>)> = vec![];
     for c in [1_000u32, 1_000_000, 0x7FFFFFFF, 0xFFFFFFFF] {
@@ -198,6 +203,11 @@ fn c14(exe: &str) {
 }
 fn main() {
     let a: Vec<String> = std::env::args().collect();
+    if a.len() >= 4 && a[1] == "childrun" {
+        let bytes = vec![a[2].parse::<u8>().unwrap(); a[3].parse().unwrap()];
+        let h = std::thread::Builder::new().stack_size(512 * 1024).spawn(move || { let mut c = Cursor::new(bytes); let r = deserialize(&mut c); std::mem::forget(r); }).unwrap();
+        h.join().unwrap(); return;
+    }
     if a.len() >= 4 && a[1] == "child" {
         let bytes = chain(&a[2], a[3].parse().unwrap());
         let h = std::thread::Builder::new().stack_size(512 * 1024).spawn(move || { let mut c = Cursor::new(bytes); let r = deserialize(&mut c); std::mem::forget(r); }).unwrap();
